@@ -39,8 +39,9 @@
 use std::collections::VecDeque;
 
 use super::c16::{
-    AField, Answer, Au, AuthState, BIG_BUF, Built, Cfg, Ck, Findings, Fld, Handled, KeyEnv, Kind, Local, MockClock, Out,
-    Req, Session, Sync, T_AUTH, T_COOKIE, build, client_ip, key_env, kind_key, make_server, open_nts, run_handle, walk,
+    AField, Answer, Au, AuthState, BIG_BUF, Built, Cfg, Ck, Findings, Fld, Handled, KeyEnv, Kind,
+    Local, MockClock, Out, Req, Session, Sync, T_AUTH, T_COOKIE, build, client_ip, key_env,
+    kind_key, make_server, open_nts, run_handle, walk,
 };
 use super::common::{self, Ctx};
 use crate::keyset::{KeySet, KeySetProvider};
@@ -80,20 +81,34 @@ fn judge_answer(
     let ans = match walk(raw) {
         Ok(a) => a,
         Err(e) => {
-            findings.report("C19:answer-malformed", size, || format!("{e}: {}", common::hex(raw)), trace);
+            findings.report(
+                "C19:answer-malformed",
+                size,
+                || format!("{e}: {}", common::hex(raw)),
+                trace,
+            );
             return (format!("malformed: {e}"), vec![]);
         }
     };
     let kind = ans.kind();
     bump(loc, kind_key(kind));
     let sess = req.session();
-    let ctxt = || format!("request {} = {}; answer = {}", req.code(), common::hex(&b.bytes), common::hex(raw));
+    let ctxt = || {
+        format!(
+            "request {} = {}; answer = {}",
+            req.code(),
+            common::hex(&b.bytes),
+            common::hex(raw)
+        )
+    };
     let mut fresh: Vec<Vec<u8>> = vec![];
     let mut classes: Vec<&'static str> = vec![];
     if matches!(expected, AuthState::Invalid | AuthState::NoAuth) {
         // whatever the answer is, it must not hand out cookies
         let outer = ans.fields.iter().any(|f| f.ty == T_COOKIE);
-        let inner = open_nts(&ans, sess.s2c().as_ref()).map(|o| o.inner.iter().any(|f| f.ty == T_COOKIE)).unwrap_or(false);
+        let inner = open_nts(&ans, sess.s2c().as_ref())
+            .map(|o| o.inner.iter().any(|f| f.ty == T_COOKIE))
+            .unwrap_or(false);
         if outer || inner {
             classes.push("C19:cookies-without-authentication");
             findings.report(
@@ -162,8 +177,18 @@ fn judge_answer(
                         );
                     }
                     Ok(o) => {
-                        let mut cookies: Vec<Vec<u8>> = o.inner.iter().filter(|f| f.ty == T_COOKIE).map(|f| f.body.clone()).collect();
-                        let clear: Vec<Vec<u8>> = ans.fields.iter().filter(|f| f.ty == T_COOKIE).map(|f| f.body.clone()).collect();
+                        let mut cookies: Vec<Vec<u8>> = o
+                            .inner
+                            .iter()
+                            .filter(|f| f.ty == T_COOKIE)
+                            .map(|f| f.body.clone())
+                            .collect();
+                        let clear: Vec<Vec<u8>> = ans
+                            .fields
+                            .iter()
+                            .filter(|f| f.ty == T_COOKIE)
+                            .map(|f| f.body.clone())
+                            .collect();
                         if !clear.is_empty() {
                             bump(loc, "cookies_in_clear");
                         }
@@ -228,7 +253,8 @@ fn judge_answer(
                                     }
                                 }
                             }
-                            let stale = b.cookies.iter().any(|r| c.starts_with(r)) || cookies.iter().enumerate().any(|(j, o)| j != i && o == c);
+                            let stale = b.cookies.iter().any(|r| c.starts_with(r))
+                                || cookies.iter().enumerate().any(|(j, o)| j != i && o == c);
                             if stale {
                                 classes.push("C19:cookie-not-fresh");
                                 findings.report(
@@ -250,7 +276,12 @@ fn judge_answer(
                         findings.report(
                             "C19:valid-request-rejected",
                             size,
-                            || format!("correctly authenticated request answered with {other:?}; {}", ctxt()),
+                            || {
+                                format!(
+                                    "correctly authenticated request answered with {other:?}; {}",
+                                    ctxt()
+                                )
+                            },
                             trace,
                         );
                     }
@@ -333,9 +364,25 @@ fn layouts(thorough: bool) -> Vec<Layout> {
         }
         v
     } else {
-        vec![(0, 0), (1, 0), (0, 1), (3, 0), (2, 2), (7, 0), (0, 7), (8, 0), (9, 0), (0, 9), (4, 5)]
+        vec![
+            (0, 0),
+            (1, 0),
+            (0, 1),
+            (3, 0),
+            (2, 2),
+            (7, 0),
+            (0, 7),
+            (8, 0),
+            (9, 0),
+            (0, 9),
+            (4, 5),
+        ]
     };
-    let leads: &[u8] = if thorough { &[0, 1, 6, 7, 8] } else { &[0, 7, 8] };
+    let leads: &[u8] = if thorough {
+        &[0, 1, 6, 7, 8]
+    } else {
+        &[0, 7, 8]
+    };
     let cookie_sets: Vec<Vec<Ck>> = vec![
         vec![],
         vec![Ck::Cur],
@@ -399,7 +446,14 @@ fn judge_layout(
             l.inc("requests_authenticator_is_legacy_mac");
         }
     }
-    let trace = || format!("layout;{};k{};{}", cfg.code(), keys.rotated as u8, req.code());
+    let trace = || {
+        format!(
+            "layout;{};k{};{}",
+            cfg.code(),
+            keys.rotated as u8,
+            req.code()
+        )
+    };
     if let Some(l) = loc.as_deref_mut() {
         l.inc("evaluations");
         l.inc(match b.auth {
@@ -420,11 +474,26 @@ fn judge_layout(
     let handled = match run_handle(server, client_ip(0), &b.bytes, BIG_BUF) {
         Ok(h) => h,
         Err(p) => {
-            findings.report("C19:panic", b.bytes.len(), || format!("Server::handle panicked: {p}"), trace);
+            findings.report(
+                "C19:panic",
+                b.bytes.len(),
+                || format!("Server::handle panicked: {p}"),
+                trace,
+            );
             return format!("panic {p}");
         }
     };
-    let (obs, _) = judge_answer(findings, &mut loc, b.auth, cfg.denies_client(), &keys.server, req, &b, &handled, &trace);
+    let (obs, _) = judge_answer(
+        findings,
+        &mut loc,
+        b.auth,
+        cfg.denies_client(),
+        &keys.server,
+        req,
+        &b,
+        &handled,
+        &trace,
+    );
     if obs != "ignored" {
         if let Some(l) = loc.as_deref_mut() {
             l.distinct(common::hash_of(&(cfg, keys.rotated, req)));
@@ -437,8 +506,14 @@ fn judge_layout(
 fn mac_like(req: &Req, b: &Built) -> bool {
     req.ver == 4
         && req.mac == 0
-        && matches!(req.fields.last(), Some(Fld::Auth(..)) | Some(Fld::RawAuth(..)))
-        && b.spans.last().map(|s| s.ty == T_AUTH && s.wire <= 24).unwrap_or(false)
+        && matches!(
+            req.fields.last(),
+            Some(Fld::Auth(..)) | Some(Fld::RawAuth(..))
+        )
+        && b.spans
+            .last()
+            .map(|s| s.ty == T_AUTH && s.wire <= 24)
+            .unwrap_or(false)
 }
 
 // ---- (C) structurally degenerate authenticators ----------------------------------------------
@@ -453,33 +528,45 @@ fn degenerate(_thorough: bool) -> Vec<Req> {
     let mut out = vec![];
     let pres: [Vec<Fld>; 3] = [vec![], vec![Fld::Uid(32)], vec![Fld::Uid(32), Fld::Ph(0)]];
     let posts: [Vec<Fld>; 3] = [vec![], vec![Fld::Unk(24)], vec![Fld::Unk(24), Fld::Uid(32)]];
-    let mut push = |ver: u8, alg512: bool, pre: &Vec<Fld>, auth: Fld, post: &Vec<Fld>, cookie_first: bool| {
-        let mut f = vec![];
-        if ver == 5 {
-            f.push(Fld::Draft(true));
-        }
-        if cookie_first {
-            f.push(Fld::Cookie(Ck::Cur, 0));
-            f.extend(pre.iter().cloned());
-        } else {
-            f.extend(pre.iter().cloned());
-            f.push(Fld::Cookie(Ck::Cur, 0));
-        }
-        f.push(auth);
-        f.extend(post.iter().cloned());
-        let mut r = Req::plain(ver, f);
-        r.alg512 = alg512;
-        out.push(r);
-    };
+    let mut push =
+        |ver: u8, alg512: bool, pre: &Vec<Fld>, auth: Fld, post: &Vec<Fld>, cookie_first: bool| {
+            let mut f = vec![];
+            if ver == 5 {
+                f.push(Fld::Draft(true));
+            }
+            if cookie_first {
+                f.push(Fld::Cookie(Ck::Cur, 0));
+                f.extend(pre.iter().cloned());
+            } else {
+                f.extend(pre.iter().cloned());
+                f.push(Fld::Cookie(Ck::Cur, 0));
+            }
+            f.push(auth);
+            f.extend(post.iter().cloned());
+            let mut r = Req::plain(ver, f);
+            r.alg512 = alg512;
+            out.push(r);
+        };
     for ver in [4u8, 5] {
-        let deltas: &[i32] = if ver == 5 { &[-4, -3, -2, -1, 0, 1, 2, 3] } else { &[-4, 0, 4] };
+        let deltas: &[i32] = if ver == 5 {
+            &[-4, -3, -2, -1, 0, 1, 2, 3]
+        } else {
+            &[-4, 0, 4]
+        };
         for pre in pres.iter() {
             for post in posts.iter() {
                 for nl in 0..=20u16 {
                     for cl in 0..=20u16 {
                         let consistent = 4 + ((nl as i32 + 3) & !3) + cl as i32;
                         for d in deltas {
-                            push(ver, false, pre, Fld::RawAuth(nl, cl, (consistent + d).max(0) as u16), post, (nl + cl) % 2 == 1);
+                            push(
+                                ver,
+                                false,
+                                pre,
+                                Fld::RawAuth(nl, cl, (consistent + d).max(0) as u16),
+                                post,
+                                (nl + cl) % 2 == 1,
+                            );
                         }
                     }
                 }
@@ -490,7 +577,14 @@ fn degenerate(_thorough: bool) -> Vec<Req> {
                     }
                     for au in aus {
                         push(ver, alg512, pre, Fld::Auth(au, vec![]), post, false);
-                        push(ver, alg512, pre, Fld::Auth(au, vec![Fld::Ph(0)]), post, false);
+                        push(
+                            ver,
+                            alg512,
+                            pre,
+                            Fld::Auth(au, vec![Fld::Ph(0)]),
+                            post,
+                            false,
+                        );
                     }
                 }
             }
@@ -502,19 +596,28 @@ fn degenerate(_thorough: bool) -> Vec<Req> {
 // ---- (B) rotation histories -----------------------------------------------------------------
 
 /// events: 0 = rotate, 1 = poll, 2 = poll with two placeholders
-fn run_history(findings: &Findings, mut loc: Option<&mut Local>, h: usize, ver: u8, alg512: bool, events: &[u8]) -> String {
+fn run_history(
+    findings: &Findings,
+    mut loc: Option<&mut Local>,
+    h: usize,
+    ver: u8,
+    alg512: bool,
+    events: &[u8],
+) -> String {
     let trace = || {
         format!(
             "seq;h{};v{};a{};{}",
             h,
             ver,
             alg512 as u8,
-            events.iter().map(|e| ["R", "P", "Q"][*e as usize]).collect::<Vec<_>>().join(",")
+            events
+                .iter()
+                .map(|e| ["R", "P", "Q"][*e as usize])
+                .collect::<Vec<_>>()
+                .join(",")
         )
     };
-    let sess = Session {
-        alg512,
-    };
+    let sess = Session { alg512 };
     let mut provider = KeySetProvider::new(h);
     let mut server = make_server(Cfg::Open, &Sync::TYPICAL, &provider.get());
     let mut rot = 0u32;
@@ -536,7 +639,11 @@ fn run_history(findings: &Findings, mut loc: Option<&mut Local>, h: usize, ver: 
             }
         }
         let (cookie, minted) = pool.pop_front().unwrap();
-        let expected = if (rot - minted) as usize <= h { AuthState::Valid } else { AuthState::Invalid };
+        let expected = if (rot - minted) as usize <= h {
+            AuthState::Valid
+        } else {
+            AuthState::Invalid
+        };
         let mut fields = vec![Fld::Uid(32), Fld::Cookie(Ck::Custom, 0)];
         if *e == 2 {
             fields.push(Fld::Ph(0));
@@ -555,18 +662,34 @@ fn run_history(findings: &Findings, mut loc: Option<&mut Local>, h: usize, ver: 
         if let Some(l) = loc.as_deref_mut() {
             l.inc("evaluations");
             l.inc("transitions_seq");
-            l.inc(if expected == AuthState::Valid { "seq_polls_expected_valid" } else { "seq_polls_expected_invalid" });
+            l.inc(if expected == AuthState::Valid {
+                "seq_polls_expected_valid"
+            } else {
+                "seq_polls_expected_invalid"
+            });
         }
         let handled = match run_handle(&mut server, client_ip(0), &b.bytes, BIG_BUF) {
             Ok(h) => h,
             Err(p) => {
-                findings.report("C19:panic", events.len(), || format!("Server::handle panicked at step {step}: {p}"), trace);
+                findings.report(
+                    "C19:panic",
+                    events.len(),
+                    || format!("Server::handle panicked at step {step}: {p}"),
+                    trace,
+                );
                 return format!("{obs}panic");
             }
         };
         let cur = provider.get();
-        let (o, fresh) = judge_answer(findings, &mut loc, expected, false, &cur, &req, &b, &handled, &trace);
-        obs.push_str(&format!("{}:{}->{};", if *e == 1 { "P" } else { "Q" }, rot - minted, o));
+        let (o, fresh) = judge_answer(
+            findings, &mut loc, expected, false, &cur, &req, &b, &handled, &trace,
+        );
+        obs.push_str(&format!(
+            "{}:{}->{};",
+            if *e == 1 { "P" } else { "Q" },
+            rot - minted,
+            o
+        ));
         for c in fresh {
             pool.push_back((c, rot));
         }
@@ -636,12 +759,22 @@ fn check() {
     // (A)
     let lay = layouts(thorough);
     ctx.set("layouts", lay.len() as u64);
-    for (cfg, rotated) in [(Cfg::Open, true), (Cfg::DenyList, true), (Cfg::Open, false), (Cfg::DenyList, false)] {
+    for (cfg, rotated) in [
+        (Cfg::Open, true),
+        (Cfg::DenyList, true),
+        (Cfg::Open, false),
+        (Cfg::DenyList, false),
+    ] {
         let keys = key_env(rotated);
         common::par_for_with(
             lay.len() as u64,
             32,
-            || (Local::new(&ctx), make_server(cfg, &Sync::TYPICAL, &keys.server)),
+            || {
+                (
+                    Local::new(&ctx),
+                    make_server(cfg, &Sync::TYPICAL, &keys.server),
+                )
+            },
             |(loc, server), i| {
                 let req = lay[i as usize].req();
                 judge_layout(&findings, Some(loc), cfg, &keys, server, &req);
@@ -655,12 +788,21 @@ fn check() {
     // (C)
     let degen = degenerate(thorough);
     ctx.set("degenerate_requests", degen.len() as u64);
-    for (cfg, rotated) in [(Cfg::Open, true), (Cfg::DenyList, false), (Cfg::Open, false)] {
+    for (cfg, rotated) in [
+        (Cfg::Open, true),
+        (Cfg::DenyList, false),
+        (Cfg::Open, false),
+    ] {
         let keys = key_env(rotated);
         common::par_for_with(
             degen.len() as u64,
             64,
-            || (Local::new(&ctx), make_server(cfg, &Sync::TYPICAL, &keys.server)),
+            || {
+                (
+                    Local::new(&ctx),
+                    make_server(cfg, &Sync::TYPICAL, &keys.server),
+                )
+            },
             |(loc, server), i| {
                 loc.inc("degenerate_cases");
                 judge_layout(&findings, Some(loc), cfg, &keys, server, &degen[i as usize]);
@@ -716,14 +858,23 @@ fn check() {
         ] {
             let r = Req::parse(code).unwrap();
             let f = Findings::new();
-            ctx.sample(format!("{code} -> {}", judge_layout(&f, None, Cfg::Open, &keys, &mut server, &r)));
+            ctx.sample(format!(
+                "{code} -> {}",
+                judge_layout(&f, None, Cfg::Open, &keys, &mut server, &r)
+            ));
         }
         let f = Findings::new();
-        ctx.sample(format!("history h=1 v4 R,P,R,Q,R,R,P -> {}", run_history(&f, None, 1, 4, false, &[0, 1, 0, 2, 0, 0, 1])));
+        ctx.sample(format!(
+            "history h=1 v4 R,P,R,Q,R,R,P -> {}",
+            run_history(&f, None, 1, 4, false, &[0, 1, 0, 2, 0, 0, 1])
+        ));
     }
     findings.flush(&ctx);
     ctx.set("transitions", ctx.get("evaluations"));
-    ctx.set("states", ctx.get("layouts") * 4 + ctx.get("degenerate_cases") + ctx.get("histories"));
+    ctx.set(
+        "states",
+        ctx.get("layouts") * 4 + ctx.get("degenerate_cases") + ctx.get("histories"),
+    );
     ctx.exhaustive(ctx.get("histories") > 0);
     ctx.finish();
 }
